@@ -88,6 +88,9 @@ func c19EnumDefs(r *rand.Rand) string {
 		if r.Intn(4) == 0 {
 			val = -i - 1
 		}
+		if i == 0 && r.Intn(3) == 0 {
+			val = 0 // the zero value of the raw code is a defined member
+		}
 		eq := "="
 		if r.Intn(2) == 0 {
 			eq = " = "
